@@ -129,3 +129,73 @@ func VerifH_c19_crash() {
 }
 
 func VerifH_c19_l2_dirty() { vL2(monG5) }
+
+// VerifH_c19_multi_db: persistence of the whole data store set: several
+// databases (one of them created after the first save), a second round of
+// changes that flushes, empties or touches only some of them, a clean
+// shutdown (save of every database) and a restart from the files: every
+// database holds exactly what it held, flushed and deleted keys do not
+// reappear, untouched databases are intact.
+func VerifH_c19_multi_db() {
+	VerifSetup()
+	vSetNow(vT0, 0)
+	vFsReset()
+	base := vFsPath("data")
+	dss := newDataStoreSet(vLane, base, nil)
+	c := vNewClientOn(newCmdDispatcher(6379, "127.0.0.1", vCmds, vInfo, dss))
+	vCmd(c, "SET", "k", "zero")
+	vCmd(c, "RPUSH", "l", "a", vStringN("e", 1))
+	vCmd(c, "SELECT", "3")
+	vCmd(c, "SET", "k", "three")
+	vCmd(c, "SADD", "s", "m")
+	vCmd(c, "EXPIRE", "k", "1000")
+	vAssert("first-save-ok", dss.save(vLane) == nil)
+	// second round
+	switch vChoice("change", 8) {
+	case 0:
+		vCmd(c, "FLUSHALL")
+	case 1:
+		vCmd(c, "FLUSHDB") // database 3
+	case 2:
+		vCmd(c, "DEL", "k", "s") // database 3 becomes empty key by key
+	case 3:
+		vCmd(c, "SELECT", "7") // a database that did not exist at the first save
+		vCmd(c, "HSET", "h", "f", "seven")
+	case 4:
+		vCmd(c, "SELECT", "0")
+		vCmd(c, "LSET", "l", "0", "changed") // only database 0 changes
+	case 5:
+		vCmd(c, "SELECT", "0")
+		vCmd(c, "FLUSHDB")
+		vCmd(c, "SET", "k", "again") // flushed and written again
+	case 6:
+		vCmd(c, "PERSIST", "k") // expiry change only
+	case 7:
+		// nothing changes
+	}
+	// what every database holds now
+	dbs := []string{"0", "3", "7"}
+	keys := []string{"k", "l", "s", "h"}
+	var want [3][4]vKeySnap
+	var size [3]respValue
+	for i, db := range dbs {
+		vCmd(c, "SELECT", db)
+		for j, k := range keys {
+			want[i][j] = vSnapKey(c, k)
+		}
+		size[i] = vCmd(c, "DBSIZE")
+	}
+	vAssert("shutdown-save-ok", dss.save(vLane) == nil)
+	// restart on the same path
+	dss2 := newDataStoreSet(vLane, base, nil)
+	c2 := vNewClientOn(newCmdDispatcher(6379, "127.0.0.1", vCmds, vInfo, dss2))
+	for i, db := range dbs {
+		vCmd(c2, "SELECT", db)
+		same := true
+		for j, k := range keys {
+			same = vAnd(same, vSnapEq(want[i][j], vSnapKey(c2, k)))
+		}
+		vAssert("database-restored-exactly", same)
+		vAssert("database-size-restored", vRespEqAny(size[i], vCmd(c2, "DBSIZE")))
+	}
+}
